@@ -144,6 +144,10 @@ pub fn run_c11(out: &mut Out, rng: &mut Rng, tier: Tier) -> String {
     }
     nonconformable_huge(out);
     zero_sized_operand(out);
+    // inner dimensions and result sizes beyond small thresholds
+    for (n, k, m) in [(3usize, 70usize, 2usize), (2, 1030, 1), (64, 1, 65), (33, 2, 32)] {
+        one(out, n, k, k, m, &["multiply", "like", "op_bb"]);
+    }
     let s = snapshot();
     if s.double_drops > 0 || s.live != 0 {
         out.oracle_fail(&format!("ledger at the end of the run: {} tokens still live, {} double drops", s.live, s.double_drops));
